@@ -57,14 +57,14 @@ fn unicode_label(input: Input<'_>) -> ParserResult<'_, &str> {
 fn exports(input: Input<'_>) -> ParserResult<'_, Exports> {
     skip_ws_and_comments(delimited(
         tag(EXPORTS),
-        skip_ws(alt((
+        skip_ws_and_comments(alt((
             value(Exports::All, tag(ALL)),
             into(separated_list1(
-                skip_ws(char(COMMA)),
-                skip_ws(alt((parameterized_identifier, identifier))),
+                skip_ws_and_comments(char(COMMA)),
+                skip_ws_and_comments(alt((parameterized_identifier, identifier))),
             )),
         ))),
-        char(SEMICOLON),
+        skip_ws_and_comments(char(SEMICOLON)),
     ))
     .parse(input)
 }
@@ -134,16 +134,16 @@ fn global_module_reference(input: Input<'_>) -> ParserResult<'_, GlobalModuleRef
 fn import(input: Input<'_>) -> ParserResult<'_, Import> {
     into(skip_ws_and_comments(pair(
         separated_list1(
-            skip_ws(char(COMMA)),
-            skip_ws(alt((parameterized_identifier, identifier))),
+            skip_ws_and_comments(char(COMMA)),
+            skip_ws_and_comments(alt((parameterized_identifier, identifier))),
         ),
         preceded(
             skip_ws_and_comments(tag(FROM)),
             skip_ws_and_comments(pair(
                 global_module_reference,
                 opt(into_inner(skip_ws_and_comments(alt((
-                    tag(WITH_SUCCESSORS),
-                    tag(WITH_DESCENDANTS),
+                    reserved_words(WITH_SUCCESSORS),
+                    reserved_words(WITH_DESCENDANTS),
                 ))))),
             )),
         ),
@@ -164,12 +164,12 @@ fn environments(
     (
         opt(skip_ws_and_comments(into(terminated(
             identifier,
-            into_inner(skip_ws(tag(INSTRUCTIONS))),
+            into_inner(skip_ws_and_comments(tag(INSTRUCTIONS))),
         )))),
         skip_ws_and_comments(map(
             opt(terminated(
                 into_inner(alt((tag(AUTOMATIC), tag(IMPLICIT), tag(EXPLICIT)))),
-                skip_ws(tag(TAGS)),
+                skip_ws_and_comments(tag(TAGS)),
             )),
             |m| match m {
                 Some(AUTOMATIC) => TaggingEnvironment::Automatic,
